@@ -48,7 +48,8 @@ Record BGeo (cfg : config) (m : mtc) : Prop := mkBG {
   bg_pp : 0 < psize m -> pstart m + psize m = rpos m;
   bg_rp : rpos m <= rcap m;
   bg_ih : ihas m = true -> istart m = rpos m /\ rpos m + target m <= rcap m /\ ifill m <= target m;
-  bg_nf : ihas m = false -> ifill m = 0 }.
+  bg_nf : ihas m = false -> ifill m = 0;
+  bg_end : ended m = true -> ihas m = false }.
 
 Definition live (s : state) (pb : bool) (i : N) : Prop := inflight s i \/ (pb = true /\ i = next (mt s)).
 
@@ -67,6 +68,39 @@ Definition PrepGeo (cfg : config) (s : state) : Prop :=
   ihas (mt s) = false /\ j_lap (J cfg s (next (mt s))) = lap (mt s) /\
   (0 < j_size (J cfg s (next (mt s))) -> j_src (J cfg s (next (mt s))) + j_size (J cfg s (next (mt s))) = rpos (mt s)).
 
+(* a source that ended at address e in lap L is continued by job j / by the caller's write position: contiguously, or after the wrap
+   (one lap later, right behind the moved prefix, and the old lap ended within targetSectionSize of the end of the buffer) *)
+Definition Cont (m : mtc) (L e : N) (j : job) : Prop :=
+  (j_lap j = L /\ j_src j = e) \/ (j_lap j = L + 1 /\ j_src j = j_psize j /\ rcap m < e + target m).
+Definition ContC (m : mtc) (L e : N) : Prop :=
+  (lap m = L /\ rpos m = e) \/ (lap m = L + 1 /\ rpos m = psize m /\ rcap m < e + target m).
+Definition jend (j : job) : N := j_src j + j_size j.
+
+(* the sources of consecutive live jobs follow each other; the caller's position follows the newest live job *)
+Definition Chain (cfg : config) (s : state) (pb : bool) : Prop :=
+  ended (mt s) = false ->
+  (forall i, live s pb i -> live s pb (i + 1) -> Cont (mt s) (j_lap (J cfg s i)) (jend (J cfg s i)) (J cfg s (i + 1))) /\
+  (forall i, live s pb i -> ~ live s pb (i + 1) -> ContC (mt s) (j_lap (J cfg s i)) (jend (J cfg s i))).
+
+(* the LDM window (serial.ldmState.window) while long-distance matching is on: at most windowSize bytes; either empty (start of the frame,
+   or cleared because a failed job broke the history), or: its prefix part lies in some lap Lp and ends where the job whose serial turn comes
+   next (serial.nextJobID) - or the caller's write position - continues; its extDict part, if any, is a tail of lap Lp-1 that reaches into
+   the last targetSectionSize bytes of the buffer, and then the prefix part starts right behind the moved prefix of lap Lp *)
+Definition WG (cfg : config) (s : state) (pb : bool) : Prop :=
+  ldm (mt s) = true -> ended (mt s) = false ->
+  let '(el, eh, pl, ph) := s_w (sr s) in
+  el <= eh /\ pl <= ph /\ (eh - el) + (ph - pl) <= wsize (mt s) /\
+  ((el = eh /\ pl = ph) \/
+   exists Lp, Lp <= lap (mt s) /\ ph <= rcap (mt s) /\
+     (el < eh -> 1 <= Lp /\ eh <= rcap (mt s) /\ rcap (mt s) < eh + target (mt s) /\ pl <= ptarget (mt s)) /\
+     (live s pb (s_next (sr s)) -> Cont (mt s) Lp ph (J cfg s (s_next (sr s)))) /\
+     (pb = false -> s_next (sr s) = next (mt s) -> ContC (mt s) Lp ph)).
+
+(* facts about the serial state that hold in every reachable state: the published copy of the LDM window is the LDM window (with the
+   repair of finding C11-ldm-wait-after-worker-error); serial.nextJobID never runs ahead of nextJobID (with the repair of finding
+   C11-serial-turn-skipped-after-error) *)
+Definition SrOk (s : state) : Prop := s_lw (sr s) = s_w (sr s) /\ s_next (sr s) <= next (mt s).
+
 Record GM (cfg : config) (s : state) (pb : bool) : Prop := mkGM {
   gm_b : BGeo cfg (mt s);
   gm_j : forall i, live s pb i -> JGeo (mt s) (J cfg s i);
@@ -74,7 +108,11 @@ Record GM (cfg : config) (s : state) (pb : bool) : Prop := mkGM {
   gm_fw : Fweak cfg s;
   gm_fs : Fstrong cfg s;
   gm_prep : pb = true -> PrepGeo cfg s;
-  gm_ne : ended (mt s) = false -> forall i, live s pb i -> 0 < j_size (J cfg s i) }.
+  gm_ne : ended (mt s) = false -> forall i, live s pb i -> 0 < j_size (J cfg s i);
+  gm_chain : Chain cfg s pb;
+  gm_win : WG cfg s pb;
+  (* the input buffer held by the caller does not overlap the LDM window *)
+  gm_wfree : ldm (mt s) = true -> ihas (mt s) = true -> overlap_win (istart (mt s), target (mt s)) (s_w (sr s)) = false }.
 
 (* what ZSTDMT_getInputDataInUse has established so far *)
 Definition ScanTo (cfg : config) (s : state) (k : N) : Prop := forall i, inflight s i -> i < k -> ~ unfin (J cfg s i).
@@ -91,16 +129,22 @@ Definition PcGeo (cfg : config) (s : state) : Prop :=
   match awake (c_pc (cl s)) with
   | CInUse k => ihas (mt s) = false /\ ready (mt s) = false /\ (done (mt s) <= k /\ k < next (mt s)) /\ ScanTo cfg s k
   | CLdm1 => ihas (mt s) = false /\ ready (mt s) = false /\ UseOk cfg s (c_use (cl s)) /\
-             rcap (mt s) - rpos (mt s) < target (mt s) /\ overlap (0, psize (mt s)) (c_use (cl s)) = false
+             (rcap (mt s) - rpos (mt s) < target (mt s) /\ ldm (mt s) = true) /\ overlap (0, psize (mt s)) (c_use (cl s)) = false
   | CLdm2 => ihas (mt s) = false /\ ready (mt s) = false /\ UseOk cfg s (c_use (cl s)) /\
-             target (mt s) <= rcap (mt s) - rpos (mt s) /\ overlap (rpos (mt s), target (mt s)) (c_use (cl s)) = false
+             (target (mt s) <= rcap (mt s) - rpos (mt s) /\ ldm (mt s) = true) /\ overlap (rpos (mt s), target (mt s)) (c_use (cl s)) = false
   | _ => True
   end.
 
 (* the invariant: while a frame is open and the caller is not waiting for / releasing the jobs of an abandoned frame *)
+(* between ZSTDMT_setBufferSize and ZSTDMT_setNbSeq of ZSTDMT_initCStream_internal (LDM frames): everything is reset but the LDM window *)
+Definition Fresh (cfg : config) (s : state) : Prop :=
+  done (mt s) = 0 /\ next (mt s) = 0 /\ ready (mt s) = false /\ ended (mt s) = false /\ rpos (mt s) = 0 /\ ihas (mt s) = false /\ ifill (mt s) = 0 /\
+  psize (mt s) = 0 /\ need_cap cfg (mt s) <= rcap (mt s) /\ s_next (sr s) = 0.
+
 Definition GInv (cfg : config) (s : state) : Prop :=
   PgOk s /\
-  (alldone (mt s) = false -> relphase (awake (c_pc (cl s))) = false -> GM cfg s (pbof s) /\ PcGeo cfg s).
+  (alldone (mt s) = false -> relphase (awake (c_pc (cl s))) = false ->
+   match awake (c_pc (cl s)) with CInitSeq => Fresh cfg s | _ => GM cfg s (pbof s) /\ PcGeo cfg s end).
 
 (* the invariant in the middle of the caller's code *)
 Definition GMr (cfg : config) (s : state) : Prop := alldone (mt s) = false -> GM cfg s (ready (mt s)).
@@ -124,7 +168,7 @@ Qed.
 
 Lemma cap_bounds cfg m : BGeo cfg m -> 2 * target m + ptarget m <= rcap m /\ wsize m + 2 * target m + ptarget m <= rcap m.
 Proof.
-  intros [Hc Ht Hpt _ _ _ _ _]. unfold need_cap in Hc.
+  intros [Hc Ht Hpt _ _ _ _ _ _]. unfold need_cap in Hc.
   destruct (0 <? ptarget m) eqn:E; [apply N.ltb_lt in E|apply N.ltb_ge in E]; nia.
 Qed.
 
@@ -192,17 +236,63 @@ Proof.
   constructor; unfold VF, vs in *; rewrite ?E1, ?E2, ?E3, ?E4, ?E6, ?Ht, ?Hp, ?Hc, ?Hl, ?Hr, ?Hs; auto.
 Qed.
 
-Definition mgf (m : mtc) := (done m, next m, ended m, rpos m, rcap m, (ihas m, istart m, ifill m), (pstart m, psize m), (target m, ptarget m, wsize m), lap m).
+Definition mgf (m : mtc) := (done m, next m, ended m, rpos m, rcap m, (ihas m, istart m, ifill m), (pstart m, psize m), (target m, ptarget m, wsize m), lap m, ldm m).
 
 Lemma mgf_fields m m' : mgf m' = mgf m ->
   done m' = done m /\ next m' = next m /\ ended m' = ended m /\ rpos m' = rpos m /\ rcap m' = rcap m /\ ihas m' = ihas m /\ istart m' = istart m /\
-  ifill m' = ifill m /\ pstart m' = pstart m /\ psize m' = psize m /\ target m' = target m /\ ptarget m' = ptarget m /\ wsize m' = wsize m /\ lap m' = lap m.
+  ifill m' = ifill m /\ pstart m' = pstart m /\ psize m' = psize m /\ target m' = target m /\ ptarget m' = ptarget m /\ wsize m' = wsize m /\ lap m' = lap m /\
+  ldm m' = ldm m.
 Proof. unfold mgf. intros H. inversion H. repeat split; (reflexivity || assumption). Qed.
 
-Lemma gm_ext cfg s s' pb :
-  mgf (mt s') = mgf (mt s) -> (forall k, jgf (getj s' k) = jgf (getj s k)) -> GM cfg s pb -> GM cfg s' pb.
+Lemma cont_ext m m' L e j j' :
+  rcap m' = rcap m -> target m' = target m -> j_lap j' = j_lap j -> j_src j' = j_src j -> j_psize j' = j_psize j ->
+  Cont m L e j -> Cont m' L e j'.
+Proof. intros A B C D E. unfold Cont. rewrite A, B, C, D, E. auto. Qed.
+
+Lemma contc_ext m m' L e :
+  lap m' = lap m -> rpos m' = rpos m -> psize m' = psize m -> rcap m' = rcap m -> target m' = target m -> ContC m L e -> ContC m' L e.
+Proof. intros A B C D E. unfold ContC. rewrite A, B, C, D, E. auto. Qed.
+
+(* Chain and WG read: the live set, ended/ldm, lap/rpos/psize/rcap/target/ptarget/wsize/next of the mtctx, lap/src/size/psize of the live
+   jobs, serial.nextJobID and the LDM window; fewer live jobs (doneJobID moved on) are fine *)
+Lemma chain_ext cfg s s' pb :
+  (forall i, live s' pb i -> live s pb i) -> (forall i, live s' pb i -> ~ live s' pb (i + 1) -> ~ live s pb (i + 1)) ->
+  ended (mt s') = ended (mt s) -> lap (mt s') = lap (mt s) -> rpos (mt s') = rpos (mt s) -> psize (mt s') = psize (mt s) ->
+  rcap (mt s') = rcap (mt s) -> target (mt s') = target (mt s) ->
+  (forall i, live s pb i -> j_lap (J cfg s' i) = j_lap (J cfg s i) /\ j_src (J cfg s' i) = j_src (J cfg s i) /\
+                            j_size (J cfg s' i) = j_size (J cfg s i) /\ j_psize (J cfg s' i) = j_psize (J cfg s i)) ->
+  Chain cfg s pb -> Chain cfg s' pb.
 Proof.
-  intros Hm Hj [B Jg Mo Fw Fs Pr Ne]. apply mgf_fields in Hm. destruct Hm as (Ed & En & Ee & Er & Ec & Ei & Eis & Eif & Eps & Epz & Et & Ept & Ew & El).
+  intros Hl Hn Ee El Er Ep Ec Et Hj C. unfold Chain in *. rewrite Ee. intros He. destruct (C He) as (C1 & C2). split.
+  - intros i Hi Hi'. pose proof (Hl _ Hi) as Li. pose proof (Hl _ Hi') as Li'.
+    destruct (Hj i Li) as (A1 & A2 & A3 & A4). destruct (Hj (i + 1) Li') as (B1 & B2 & B3 & B4).
+    unfold jend. rewrite A1, A2, A3. eapply cont_ext; [exact Ec|exact Et|exact B1|exact B2|exact B4|]. apply C1; auto.
+  - intros i Hi Hn'. pose proof (Hl _ Hi) as Li. destruct (Hj i Li) as (A1 & A2 & A3 & A4).
+    unfold jend. rewrite A1, A2, A3. eapply contc_ext; [exact El|exact Er|exact Ep|exact Ec|exact Et|]. apply C2; auto.
+Qed.
+
+Lemma wg_ext cfg s s' pb :
+  (forall i, live s' pb i -> live s pb i) ->
+  ended (mt s') = ended (mt s) -> ldm (mt s') = ldm (mt s) -> lap (mt s') = lap (mt s) -> rpos (mt s') = rpos (mt s) -> psize (mt s') = psize (mt s) ->
+  rcap (mt s') = rcap (mt s) -> target (mt s') = target (mt s) -> ptarget (mt s') = ptarget (mt s) -> wsize (mt s') = wsize (mt s) ->
+  next (mt s') = next (mt s) -> s_next (sr s') = s_next (sr s) -> s_w (sr s') = s_w (sr s) ->
+  (forall i, live s pb i -> j_lap (J cfg s' i) = j_lap (J cfg s i) /\ j_src (J cfg s' i) = j_src (J cfg s i) /\
+                            j_size (J cfg s' i) = j_size (J cfg s i) /\ j_psize (J cfg s' i) = j_psize (J cfg s i)) ->
+  WG cfg s pb -> WG cfg s' pb.
+Proof.
+  intros Hl Ee Eld El Er Ep Ec Et Ept Ew En Esn Esw Hj W. unfold WG in *. rewrite Ee, Eld, Esw, Ew, El, Ec, Et, Ept, Esn, En.
+  intros H1 H2. specialize (W H1 H2). destruct (s_w (sr s)) as [[[el eh] pl] ph].
+  destruct W as (W1 & W2 & W3 & W4). split; [exact W1|]. split; [exact W2|]. split; [exact W3|].
+  destruct W4 as [W4|(Lp & L1 & L2 & L3 & L4 & L5)]; [left; exact W4|right]. exists Lp. split; [exact L1|]. split; [exact L2|]. split; [exact L3|]. split.
+  - intros Hi. pose proof (Hl _ Hi) as Li. destruct (Hj _ Li) as (B1 & B2 & B3 & B4).
+    eapply cont_ext; [exact Ec|exact Et|exact B1|exact B2|exact B4|]. apply L4; auto.
+  - intros Hp Hx. eapply contc_ext; [exact El|exact Er|exact Ep|exact Ec|exact Et|]. apply L5; auto.
+Qed.
+
+Lemma gm_ext cfg s s' pb :
+  mgf (mt s') = mgf (mt s) -> sr s' = sr s -> (forall k, jgf (getj s' k) = jgf (getj s k)) -> GM cfg s pb -> GM cfg s' pb.
+Proof.
+  intros Hm Hsr Hj [B Jg Mo Fw Fs Pr Ne Ch Wn Wf]. apply mgf_fields in Hm. destruct Hm as (Ed & En & Ee & Er & Ec & Ei & Eis & Eif & Eps & Epz & Et & Ept & Ew & El & Eld).
   assert (Hin : forall i, inflight s' i <-> inflight s i) by (intros; unfold inflight; rewrite Ed, En; tauto).
   assert (Hlv : forall i, live s' pb i <-> live s pb i) by (intros; unfold live; rewrite Hin, En; tauto).
   assert (Hf : forall i, let j := J cfg s i in let j' := J cfg s' i in
@@ -212,7 +302,7 @@ Proof.
   { intros i. destruct (Hf i) as (E1 & _ & _ & _ & _ & E6). unfold vs. rewrite E1, E6, Ec. reflexivity. }
   assert (Hvf : VF (mt s') = VF (mt s)) by (unfold VF; rewrite El, Ec, Er; reflexivity).
   constructor.
-  - destruct B as [b1 b2 b3 b4 b5 b6 b7 b8]. constructor; rewrite ?Ec, ?Et, ?Ept, ?Epz, ?Eps, ?Er, ?Ei, ?Eis, ?Eif; auto.
+  - destruct B as [b1 b2 b3 b4 b5 b6 b7 b8 b9]. constructor; rewrite ?Ec, ?Et, ?Ept, ?Epz, ?Eps, ?Er, ?Ei, ?Eis, ?Eif, ?Ee; auto.
     unfold need_cap in *. rewrite Ew, Et, Ept. exact b1.
   - intros i Hi. apply Hlv in Hi. eapply jgeo_ext; [apply Hj|..|apply Jg; exact Hi]; auto.
   - intros i i' Hi Hi' Hlt. apply Hlv in Hi. apply Hlv in Hi'. destruct (Hf i) as (_ & E2 & _). destruct (Hf i') as (_ & E2' & _ & E4' & _).
@@ -222,6 +312,14 @@ Proof.
   - intros Hp. destruct (Pr Hp) as (P1 & P2 & P3). unfold PrepGeo. rewrite En, Ei, El, Er. destruct (Hf (next (mt s))) as (E1 & E2 & _ & _ & _ & E6).
     rewrite E1, E2, E6. auto.
   - rewrite Ee. intros He i Hi. apply Hlv in Hi. destruct (Hf i) as (_ & E2 & _). rewrite E2. apply Ne; auto.
+  - eapply chain_ext; [..|exact Ch]; auto.
+    + intros i Hi. apply Hlv; auto.
+    + intros i Hi Hn X. apply Hn. apply Hlv; auto.
+    + intros i _. destruct (Hf i) as (E1 & E2 & _ & E4 & _ & E6). auto.
+  - eapply wg_ext; [..|exact Wn]; auto; try (rewrite Hsr; reflexivity).
+    + intros i Hi. apply Hlv; auto.
+    + intros i _. destruct (Hf i) as (E1 & E2 & _ & E4 & _ & E6). auto.
+  - rewrite Eld, Ei, Eis, Et, Hsr. exact Wf.
 Qed.
 
 Lemma scanto_ext cfg s s' k :
@@ -234,7 +332,7 @@ Qed.
 Lemma useok_ext cfg s s' use :
   mgf (mt s') = mgf (mt s) -> (forall k, jgf (getj s' k) = jgf (getj s k)) -> UseOk cfg s use -> UseOk cfg s' use.
 Proof.
-  intros Hm Hj U. apply mgf_fields in Hm. destruct Hm as (Ed & En & Ee & Er & Ec & Ei & Eis & Eif & Eps & Epz & Et & Ept & Ew & El).
+  intros Hm Hj U. apply mgf_fields in Hm. destruct Hm as (Ed & En & Ee & Er & Ec & Ei & Eis & Eif & Eps & Epz & Et & Ept & Ew & El & Eld).
   assert (Hin : forall i, inflight s' i <-> inflight s i) by (intros; unfold inflight; rewrite Ed, En; tauto).
   destruct U as [(U1 & U2)|(d & Hd & Sc & Sz & Eu & Fd)].
   - left. split; auto. intros i Hi. apply Hin in Hi. specialize (U2 i Hi).
@@ -243,4 +341,70 @@ Proof.
     split; [apply Hin; auto|]. split; [eapply scanto_ext; eauto|]. unfold J in *. rewrite E2.
     split; auto. split; [unfold use_of; rewrite E1, E2, E3, E4; exact Eu|].
     unfold VF, vs. rewrite El, Ec, Er, E4, E1, E6. exact Fd.
+Qed.
+
+(* ------------------------------------------------------------------ *)
+(* ZSTD_window_update / enforceMaxDist / clear on addresses *)
+
+Lemma win_update_spec el eh pl ph src size : 0 < size -> el <= eh -> pl <= ph ->
+  let '(el', eh', pl', ph') := win_update (el, eh, pl, ph) src size in
+  ph' = src + size /\
+  ((src = ph /\ eh' = eh /\ pl' = pl /\ el <= el' <= eh) \/ (src <> ph /\ eh' = ph /\ pl' = src /\ pl <= el' <= ph)).
+Proof.
+  intros Hs H1 H2. unfold win_update. replace (size =? 0) with false by (symmetry; apply N.eqb_neq; lia).
+  destruct (src =? ph) eqn:E.
+  - apply N.eqb_eq in E. destruct ((el <? src + size) && (src <? eh)) eqn:X; (split; [reflexivity|left; repeat split; auto; try lia]).
+    apply andb_prop in X. rewrite !N.ltb_lt in X. lia.
+  - apply N.eqb_neq in E. destruct (ph - pl <? 8).
+    + destruct ((ph <? src + size) && (src <? ph)) eqn:X; (split; [reflexivity|right; repeat split; auto; try lia]).
+      apply andb_prop in X. rewrite !N.ltb_lt in X. lia.
+    + destruct ((pl <? src + size) && (src <? ph)) eqn:X; (split; [reflexivity|right; repeat split; auto; try lia]).
+      apply andb_prop in X. rewrite !N.ltb_lt in X. lia.
+Qed.
+
+Lemma win_cap_spec maxd el eh pl ph : el <= eh -> pl <= ph ->
+  let '(el', eh', pl', ph') := win_cap maxd (el, eh, pl, ph) in
+  eh' = eh /\ ph' = ph /\ el <= el' <= eh /\ pl <= pl' <= ph /\ (eh' - el') + (ph' - pl') <= maxd /\ (el' < eh' -> pl' = pl).
+Proof.
+  intros H1 H2. unfold win_cap. destruct ((eh - el) + (ph - pl) <=? maxd) eqn:E.
+  - apply N.leb_le in E. repeat split; auto; lia.
+  - apply N.leb_gt in E. destruct ((eh - el) + (ph - pl) - maxd <=? eh - el) eqn:E2.
+    + apply N.leb_le in E2. repeat split; auto; lia.
+    + apply N.leb_gt in E2. repeat split; auto; lia.
+Qed.
+
+(* what the window can overlap after a job's source was added and the window cut *)
+Lemma overlap_sub a b b' : overlap a b' = true -> fst b <= fst b' -> fst b' + snd b' <= fst b + snd b -> overlap a b = true.
+Proof.
+  intros H H1 H2. apply overlap_true in H. destruct H as (A1 & A2 & A3 & A4). unfold overlap.
+  replace (snd a =? 0) with false by (symmetry; apply N.eqb_neq; lia). replace (snd b =? 0) with false by (symmetry; apply N.eqb_neq; lia).
+  cbn [orb]. apply andb_true_intro. split; apply N.ltb_lt; lia.
+Qed.
+
+Lemma overlap_win_serial b maxd el eh pl ph src size :
+  0 < size -> el <= eh -> pl <= ph ->
+  overlap_win b (win_cap maxd (win_update (el, eh, pl, ph) src size)) = true ->
+  overlap_win b (el, eh, pl, ph) = true \/ overlap b (src, size) = true.
+Proof.
+  intros Hs H1 H2. pose proof (win_update_spec el eh pl ph src size Hs H1 H2) as U.
+  destruct (win_update (el, eh, pl, ph) src size) as [[[el1 eh1] pl1] ph1]. destruct U as (U1 & U2).
+  assert (U3 : el1 <= eh1 /\ pl1 <= ph1) by (destruct U2 as [(A & B' & C & D)|(A & B' & C & D)]; lia).
+  pose proof (win_cap_spec maxd el1 eh1 pl1 ph1 (proj1 U3) (proj2 U3)) as V.
+  destruct (win_cap maxd (el1, eh1, pl1, ph1)) as [[[el2 eh2] pl2] ph2]. destruct V as (V1 & V2 & V3 & V4 & V5 & V6).
+  unfold overlap_win. intros H. apply orb_prop in H.
+  pose proof orb_true_intro as Hor.
+  destruct U2 as [(A & B' & C & D)|(A & B' & C & D)]; destruct H as [H|H].
+  - left. apply Hor. left. eapply overlap_sub; [exact H|cbn [fst snd]; lia|cbn [fst snd]; lia].
+  - (* the prefix part: old prefix followed by the source *)
+    apply overlap_true in H. cbn [fst snd] in H. destruct H as (A1 & A2 & A3 & A4).
+    destruct (N.ltb (fst b) ph && N.ltb pl ph) eqn:X0; [apply andb_prop in X0; destruct X0 as (X & X'); apply N.ltb_lt in X; apply N.ltb_lt in X'|apply andb_false_iff in X0; rewrite !N.ltb_ge in X0; assert (X : ph <= fst b \/ pl = ph) by lia].
+    + left. apply Hor. right. unfold overlap. cbn [fst snd].
+      replace (snd b =? 0) with false by (symmetry; apply N.eqb_neq; lia). replace (ph - pl =? 0) with false by (symmetry; apply N.eqb_neq; lia).
+      cbn [orb]. apply andb_true_intro. split; apply N.ltb_lt; lia.
+    + right. unfold overlap. cbn [fst snd].
+      replace (snd b =? 0) with false by (symmetry; apply N.eqb_neq; lia). replace (size =? 0) with false by (symmetry; apply N.eqb_neq; lia).
+      cbn [orb]. apply andb_true_intro. split; apply N.ltb_lt; lia.
+  - (* the extDict part is a piece of the old prefix part *)
+    left. apply Hor. right. eapply overlap_sub; [exact H|cbn [fst snd]; lia|cbn [fst snd]; lia].
+  - right. eapply overlap_sub; [exact H|cbn [fst snd]; lia|cbn [fst snd]; lia].
 Qed.
